@@ -740,7 +740,10 @@ def hEdsReconcile (inp out : Json) : Except String Findings := do
             | some k => decide ((cs.nodes.length : Int) ≤ max k oldNodes.length)
             | none => true
           let fs := spec fs "C04.list-growth" within
-          spec fs "C15.count-vs-targeted" within
+          let fs := spec fs "C15.count-vs-targeted" within
+          -- "nodes selected earlier that are still valid are kept" across reconciles — also when the canary is
+          -- re-targeted to another replica set by a second template change (theorem L3 canary history / C15_keep)
+          spec fs "C15.keep(reconcile)" (Spec.C15.keep d.template c nodes oldNodes cs.nodes)
         | _, _ => fs
       fs
     | _, _ => fs
@@ -756,7 +759,7 @@ def hEdsReconcile (inp out : Json) : Except String Findings := do
   -- safety clauses are judged on what it wrote — in particular a percentage of canary replicas must not
   -- silently be resolved against something else than the targeted nodes (C15), the list must not grow (C04)
   let readFault : Bool := (inp.getObjValAs? Bool "readFault").toOption.getD false
-  let safety := ["SPEC C15.count-vs-targeted", "SPEC C04.list-growth", "SPEC C12.writes-owned", "SPEC C12.no-adoption",
+  let safety := ["SPEC C15.count-vs-targeted", "SPEC C15.keep(reconcile)", "SPEC C04.list-growth", "SPEC C12.writes-owned", "SPEC C12.no-adoption",
     "SPEC C13.create-only-if-none", "SPEC C13.cleanup-safe", "SPEC C05.status-active", "SPEC C16.reconcile-no-crash(EDS)",
     "SPEC C07.status-before-spec"]
   let fs := if readFault then fs.filter (fun t => safety.any (fun p => t.startsWith p)) else fs
@@ -966,6 +969,18 @@ def hErsReconcile (inp out : Json) : Except String Findings := do
                             s.status == "valid" && settingMatches s n.labels == some true)
         if applicable.isEmpty then Spec.C10.resources c.pod rs.template n none
         else applicable.any (fun s => Spec.C10.resources c.pod rs.template n (some s))))
+  -- C10 "container resources resolved as node-annotation override, else the valid ExtendedDaemonsetSetting
+  -- selecting the node, else the template" on the pods this sync really creates (same content as
+  -- C18.only-valid-setting-applied, judged for C10)
+  let fs := if !distinctNames then fs else
+    spec fs "C10.api-resources" (o.creates.all (fun c =>
+      match nodes.find? (fun n => n.name == c.node) with
+      | none => true
+      | some n =>
+        let applicable := settings.filter (fun s => s.ns == d.ns && s.reference == some d.name &&
+                            s.status == "valid" && settingMatches s n.labels == some true)
+        if applicable.isEmpty then Spec.C10.resources c.pod rs.template n none
+        else applicable.any (fun s => Spec.C10.resources c.pod rs.template n (some s))))
   -- C14: counter ordering for the active / canary role
   let fs := match o.statusUpdate with
     | some s =>
@@ -978,6 +993,15 @@ def hErsReconcile (inp out : Json) : Except String Findings := do
   let fs := spec fs "C11.status-last" (match o.order.findIdx? (·.startsWith "status:ERS") with
       | some i => i + 1 == o.order.length
       | none => true)
+  -- a sync one of whose List calls failed (read fault): the model does not follow it; only the safety
+  -- clauses are judged on what it wrote — what it creates must still be built from the valid setting
+  -- selecting the node (C18/C10), on eligible empty nodes (C01), inside its role's nodes (C04), own (C12)
+  let readFault : Bool := (inp.getObjValAs? Bool "readFault").toOption.getD false
+  let safety := ["SPEC C18.only-valid-setting-applied", "SPEC C10.api-pinned-meta", "SPEC C10.api-resources", "SPEC C01.api-", "SPEC C04.canary-creates-in-list",
+    "SPEC C04.active-avoids-list", "SPEC C04.unknown-inert", "SPEC C04.label-only-own-ers", "SPEC C12.writes-owned",
+    "SPEC C16.reconcile-no-crash(ERS)", "SPEC C10.sync-no-spurious-replace", "SPEC C08.sync-paused-no-update-delete",
+    "SPEC C08.sync-frozen-no-create", "SPEC C11.status-last", "SPEC C07.failed-mark-kept"]
+  let fs := if readFault then fs.filter (fun t => safety.any (fun p => t.startsWith p)) else fs
   return fs
 
 /-! ### parallel helpers (C17) -/
